@@ -39,3 +39,23 @@ def c06_units(tier):
 reg("C06", c06_units,
     "bounded symbolic model checking: one `set`/`claim`/`new` step decided by the real buildSetEvents (and callers) from an arbitrary store satisfying the claim rule, applied by the real replay loop; post-state checked against an independent copy of the documented transition table and the claim rule. One inductive step covers command sequences of any length.",
     ["pre-state invariant I3 (six states + claim rule) is what the step itself re-establishes", "json.Marshal/Unmarshal modelled as key->atom boxes keyed by the struct tags read from the current source"])
+
+
+# ---------------------------------------------------------------- C07
+WORLD = ["world_native.go"]
+
+
+def c07_units(tier):
+    n = "3" if tier == "quick" else "4"
+    stub = {"loop": 20, "rec": 4, "stubs": "hasCycle=zzHasCycleSpec"}
+    return [
+        Unit("hasCycle-vs-spec", WORLD + ["c07.go"], "zzC07_HasCycle_N" + n, {"loop": 24, "rec": int(n) + 1}, bounds="Deps over %s slot ids, any edge relation (cyclic or not), from/to arbitrary ids; recursion unwound to depth %s+1 with unwinding assertions" % (n, n)),
+        Unit("link-step", WORLD + ["c07.go"], "zzC07_LinkStep", stub, note="hasCycle replaced by its reachability summary (checked by hasCycle-vs-spec)", bounds="store of 3 items (any kinds/states), edges = any acyclic same-kind relation between live items (symbolic rank witness), 1 tombstone; request sequence|sequence rm with arbitrary from/to ids (live, pruned, unknown, equal)"),
+        Unit("mirror", WORLD + ["c07.go"], "zzC07_Mirror", stub, note="hasCycle replaced by its summary", bounds="store of 2 items; one link/unlink step; deps/rdeps slices rebuilt by the real replay post-processing"),
+    ]
+
+
+reg("C07", c07_units,
+    "bounded symbolic model checking: one sequence/sequence-rm edge through the real writeLinkEvent closure (validateDepSelf, validateDepKinds, hasCycle/isReachable) from an arbitrary well-formed store, applied by the real replay loop; the post-graph is checked for well-formed edges, absence of cycles up to the slot count, deps/rdeps mirroring and exactly-one-edge change.",
+    ["L1 world stubs: loadGraph/appendEvents/getEventsPath replaced by a symbolic store (engine/world.go); withLock executed for real over syscall stubs",
+     "slot ids are the constants ID0..IDn (sound by symmetry: ids are only compared, and any n distinct ids map order-preservingly onto them)"])
